@@ -102,7 +102,9 @@ def content_list(recs):
 def run_foreign(doc, st):
     ns = sut.load()
     r = foreign.render(doc)
-    st.case(doc, nontrivial=len(r.freedoms) >= 2 and r.model_accepts,
+    empty_meta = any(s.get('value') == {} for s in doc['sections'])
+    st.case(doc, nontrivial=(len(r.freedoms) >= 2 and r.model_accepts and
+                             not empty_meta),
             classes=sorted(r.freedoms) +
             ['model-accepts' if r.model_accepts else 'model-rejects'])
 
@@ -110,7 +112,7 @@ def run_foreign(doc, st):
         st.exclude('object-model-cannot-hold-it')
         return
 
-    if any(s.get('value') == {} for s in doc['sections']):
+    if empty_meta:
         # The object model documents that empty content sections are
         # skipped when writing (and the writer refuses empty metadata), so a
         # present-but-empty metadata object cannot be carried over.
@@ -179,7 +181,7 @@ def checks():
                  'trees: byte-identical after parse + serialise; '
                  'non-trivial as C05'),
         HypCheck(
-            'foreign-files', lambda: foreign.docs(), run_foreign,
+            'foreign-files', lambda: foreign.docs(meta_min_size=1), run_foreign,
             budget={'quick': (16, 60), 'thorough': (16, 5000)},
             rule='well-formed foreign files (shuffled options, blank lines, '
                  'CRLF headers, other JSON styles, omitted optional options '
